@@ -66,6 +66,18 @@ def c01_api(r, idx):
         f = first.field.add(); f.name, f.number, f.label, f.type, f.type_name = "rack", 76, 1, 11, rack.fqn
         extra_files.append(cm)
         feats.append("nested-field-named-like-module")
+    if idx % 3 != 2:
+        # a top-level message and a NESTED message of the same name; the top-level one uses a type nested in its namesake
+        crate = api.main.message("Crate")
+        pal = crate.nested("Pallet")
+        tag = pal.nested("Tag"); tag.field("text", 1, "string")
+        pal.field("cover", 1, tag.fqn)
+        crate.field("favourite", 1, pal.fqn).field("top_tag", 2, tag.fqn)
+        top = api.main.message("Pallet"); top.field("name", 1, "string").field("first_tag", 2, tag.fqn).field("inner", 3, pal.fqn)
+        first = api.main.proto.message_type[0]
+        f = first.field.add(); f.name, f.number, f.label, f.type, f.type_name = "pallet", 77, 1, 11, top.fqn
+        f = first.field.add(); f.name, f.number, f.label, f.type, f.type_name = "crate", 78, 1, 11, crate.fqn
+        feats.append("nested-namesake-of-top-level")
     if k in (2, 4, 5):
         dep = File("acme/common/types.proto", "acme.common")
         mo = dep.message("Money"); mo.field("units", 1, "int64").field("currency", 2, "string")
@@ -257,6 +269,21 @@ def run(ctx):
             opts.append({"transport": "grpc", "params": [], "yaml": None, "ads": True})
         for oi, o in enumerate(opts):
             jobs.append((i, oi, req, o, deps, services, feats))
+    # compute-style APIs: extended operations polled through several services; status field enum / string / bool
+    from . import c10
+    for k, status in enumerate(["enum", "string", "bool"]):
+        try:
+            req = c10.extended_multi_request(env.rng("C01-extended", k), k)
+        except apigen.Invalid:
+            ctx.features["invalid-candidate"] += 1
+            continue
+        fp = [p for p in req.proto_file if p.name.endswith("compute.proto")][0]
+        fld = [x for x in [m for m in fp.message_type if m.name == "Operation"][0].field if x.name == "status"][0]
+        if status != "enum":
+            fld.type = 9 if status == "string" else 8
+            fld.ClearField("type_name")
+        jobs.append((2000 + k, 0, req, {"transport": "rest", "params": [], "yaml": None, "ads": False}, [],
+                     [sv.name for sv in fp.service], ["extended-operations", f"status-{status}"]))
     results = gen.pmap(lambda j: run_case(j[:6]), jobs)
     checks, t1e = [], []
     for j, res in zip(jobs, results):
